@@ -363,7 +363,9 @@ def shard(ctx):
             ctx.violation(f'rust_{fn}_panics_where_defined', f'{fn} panicked although the operation is defined', dict(w, expected=tb.show(exp)))
             continue
         got = tb.parse(ans[5:])
-        if got != exp:
+        # modulo A10: hand-built (ill-formed, redundant) wrappers on a metavariable that declares the variable fresh are identified
+        # with the bare metavariable - the checker drops them whenever it re-applies a substitution, the textbook keeps an untouched node
+        if tb.norm_py(got) != tb.norm_py(exp):
             ctx.violation(f'rust_{fn}_wrong_result', f'{fn} differs from the textbook result', dict(w, expected=tb.show(exp)))
             continue
         if fn != 'instantiate':
